@@ -2,6 +2,6 @@ SPECIFICATION MSpec
 CONSTANTS
   Denoms = {"atele", "btok"}
   MaxReward = 2
-  MaxEntries = 2
+  MaxEntries = 3
 POSTCONDITION Accepted
 CHECK_DEADLOCK FALSE
